@@ -245,6 +245,9 @@ def sm_job(case, tier, nmax, timeout=900, mem=16):
         bounds='array length 0..%d, failure at every constructor call index or none, joint additional size 0..64, second array 0..16 bytes' % nmax)
 sm_job(1, 'quick', 4); sm_job(2, 'quick', 1); sm_job(4, 'quick', 2); sm_job(6, 'quick', 2); sm_job(7, 'quick', 2)
 sm_job(7, 'thorough', 3, 3000, 16)
+add('smart-8-jalloc', ['C11', 'C01'], 'smart', 'smart_step.c', config='release', defines=['CASE=8', 'NMAX=0', 'HEAP_SIZE=512'], unwind=20, timeout=900, tier='quick', mem_gb=16,
+    desc='joint_allocator used directly on a joint object: allocate A, allocate B, release A (not the last allocation), allocate C; B and C inside the joint memory, aligned, disjoint; block released whole',
+    bounds='additional size 0..64, three piece sizes 1..24 each, alignment 1/2/4/8, leaf allocation may fail')
 sm_job(1, 'thorough', 8, 3000, 16); sm_job(4, 'thorough', 3, 3000, 16); sm_job(5, 'thorough', 2, 3600, 24)
 
 # ---------------------------------------------------------------- temporary allocator (mode 2)
